@@ -99,6 +99,19 @@ CONFIGS["hw2cores"] = {"deps": {"A": {"locs": {"a0": {"cores": 2, "memory": 8, "
 CONFIGS["xy"] = {"deps": {"X": {"locs": {"x0": {"cores": 2, "memory": 8, "storage": {"/": 64.0}}}},
                           "Y": {"locs": {"y0": {"cores": 1, "memory": 8, "storage": {"/": 64.0}}}}},
                  "targets": [("X", 1), ("Y", 1)], "req": {"cores": 1, "memory": 1, "out": 0, "tmp": 0}}
+# three levels: the wrapper W runs inside M (say, a queue manager) which runs on the hosts of A; every level reserves
+CONFIGS["stacked3"] = {"deps": {"A": {"locs": {"a0": {"cores": 1, "memory": 2, "storage": {"/": 8.0}},
+                                               "a1": {"cores": 1, "memory": 2, "storage": {"/": 8.0}}}},
+                                "M": {"wraps": "A", "locs": {"m0": {"cores": 2, "memory": 4, "storage": {"/": 8.0}},
+                                                             "m1": {"cores": 2, "memory": 4, "storage": {"/": 8.0}}}},
+                                "W": {"wraps": "M", "locs": {"w0": {"cores": 2, "memory": 4, "storage": {"/": 8.0}},
+                                                             "w1": {"cores": 2, "memory": 4, "storage": {"/": 8.0}}}}},
+                       "targets": [("W", 1)], "req": {"cores": 1, "memory": 1, "out": 1, "tmp": 0}}
+CONFIGS["stacked3_slots"] = {"deps": {"A": {"locs": {"a0": {"slots": 1}, "a1": {"slots": 1}}},
+                                      "M": {"wraps": "A", "locs": {"m0": {"slots": 2}, "m1": {"slots": 2}}},
+                                      "W": {"wraps": "M", "locs": {"w0": {"cores": 2, "memory": 2, "storage": {"/": 8.0}},
+                                                                   "w1": {"cores": 2, "memory": 2, "storage": {"/": 8.0}}}}},
+                             "targets": [("W", 1)], "req": {"cores": 1, "memory": 1, "out": 0, "tmp": 0}}
 PROBE_CONFIGS = ("stacked_shared", "stacked_slots_shared")
 
 
@@ -120,9 +133,12 @@ class World:
         for name, d in cfg["deps"].items():
             if "wraps" not in d:
                 self.connectors[name] = FakeConnector(name, locations=d["locs"], gated=gated, usage=params.get("usage", 0))
-        for name, d in cfg["deps"].items():
-            if "wraps" in d:
-                self.connectors[name] = FakeWrapper(name, connector=self.connectors[d["wraps"]], locations=d["locs"], gated=gated)
+        todo = [n for n, d in cfg["deps"].items() if "wraps" in d]
+        while todo:  # inner wrappers first
+            name = next(n for n in todo if cfg["deps"][n]["wraps"] in self.connectors)
+            todo.remove(name)
+            d = cfg["deps"][name]
+            self.connectors[name] = FakeWrapper(name, connector=self.connectors[d["wraps"]], locations=d["locs"], gated=gated)
         ctx = SimpleNamespace(deployment_manager=FakeDeploymentManager(self.connectors), data_manager=FakeDataManager())
         self.sched = DefaultScheduler(ctx, retry_delay=params.get("retry_delay", 0))
         self.dcfg = {n: DeploymentConfig(name=n, type="fake", config={}, lazy=False) for n in self.connectors}
@@ -372,7 +388,9 @@ def cases(tier, retry_delay=0):
         for p in pairs:
             long = sum(len(SCRIPTS[x]) for x in p) > 8
             if quick:
-                if long and c not in ("hw1", "slot1", "stacked"):
+                if c.startswith("stacked3") and p not in (("ok", "ok"), ("recover", "ok"), ("rollback_running", "ok")):
+                    continue
+                if long and c not in ("hw1", "slot1", "stacked", "stacked3"):
                     continue
                 b = 0 if long else 1
             else:
